@@ -74,6 +74,8 @@ pub struct Cx<'g> {
     pub fuels: Vec<String>,
     fuel_next: usize,
     /// length of the array type a `let` annotation asks for (const-generic argument of the initialiser call)
+    /// locals that hold values computed from ignored fields / floats (no Lean binding exists for them)
+    pub ignored_locals: Vec<String>,
     /// translating the initialiser of a `const` item (compile-time evaluation: arithmetic is exact)
     pub const_ctx: bool,
     pub array_len_hint: Option<String>,
@@ -115,6 +117,7 @@ impl<'g> Cx<'g> {
             pending_ro: Vec::new(),
             fuels: Vec::new(),
             fuel_next: 0,
+            ignored_locals: Vec::new(),
             const_ctx: false,
             array_len_hint: None,
             array_len_lookahead: None,
@@ -539,12 +542,14 @@ impl<'g> Cx<'g> {
         self.aliases.push(pa);
         let pr = std::mem::take(&mut self.pending_ro);
         self.ro.push(pr);
+        let saved_ignored = self.ignored_locals.len();
         let saved_globs = self.glob_enums.len();
         let r = self.items_inner(items, tail, span);
         self.glob_enums.truncate(saved_globs);
         self.aliases.pop();
         self.ro.pop();
         self.scopes.pop();
+        self.ignored_locals.truncate(saved_ignored);
         r
     }
 
@@ -559,6 +564,14 @@ impl<'g> Cx<'g> {
                     // `let PAT = e else { diverge };  rest…`  ≡  `match e { PAT => rest…, _ => diverge }`
                     let d = self.let_else(l, &items[idx + 1..], tail, span, &mut stmts)?;
                     return Ok((Doc::seq(stmts, d.0), d.1, d.2));
+                }
+                syn::Stmt::Local(l) if self.local_is_ignored(l) => {
+                    // a value computed from ignored fields / floats: evaluated for its effects only
+                    let init = &l.init.as_ref().unwrap().expr;
+                    self.effects_only(init, &mut stmts)?;
+                    let mut names = Vec::new();
+                    super::analysis::pat_idents(&l.pat, &mut names);
+                    self.ignored_locals.extend(names);
                 }
                 syn::Stmt::Local(l) => {
                     // `let x = f(..)?;` with a const-generic `f`: the array length may only be fixed by a later use
@@ -866,6 +879,27 @@ impl<'g> Cx<'g> {
             return Ok(None);
         }
         let name = mac.path.segments.last().map(|s| s.ident.to_string()).unwrap_or_default();
+        if name == "assert" {
+            // `assert!(cond, "message", args…)`: panics when `cond` is false (the message is not evaluated otherwise)
+            struct First(syn::Expr);
+            impl syn::parse::Parse for First {
+                fn parse(input: syn::parse::ParseStream) -> syn::Result<Self> {
+                    let e: syn::Expr = input.parse()?;
+                    let _rest: proc_macro2::TokenStream = input.parse()?;
+                    Ok(First(e))
+                }
+            }
+            let cond = match mac.parse_body::<First>() {
+                Ok(f) => f.0,
+                Err(_) => return self.bail(mac.span(), "cannot parse the condition of `assert!`"),
+            };
+            let (c, ct) = self.expr(&cond, Some(&Ty::Bool), _stmts)?;
+            if !matches!(ct, Ty::Bool) {
+                return self.bail(mac.span(), "`assert!` condition is not a bool");
+            }
+            _stmts.push(Stmt::Bind("_".into(), Doc::atom(format!("RustSem.assert {} {}", c, self.site(mac)))));
+            return Ok(None);
+        }
         if name == "unreachable" || name == "panic" || name == "unimplemented" || name == "todo" {
             return Ok(Some(Doc::atom(format!("Exec.panic {}", self.site(mac)))));
         }
@@ -1010,6 +1044,11 @@ impl<'g> Cx<'g> {
 
     /// A statement. Returns `Some(doc)` when it diverges (`return`).
     fn stmt(&mut self, e: &syn::Expr, stmts: &mut Vec<Stmt>) -> R<Option<Doc>> {
+        if self.stmt_is_ignored(e) {
+            // writes an ignored field / local only: dropped, its operands are evaluated for their effects
+            self.drop_ignored_stmt(e, stmts)?;
+            return Ok(None);
+        }
         match e {
             syn::Expr::Return(r) => Ok(Some(self.ret_doc(r.expr.as_deref(), true, r.span(), stmts)?)),
             syn::Expr::Macro(m) => self.stmt_macro(&m.mac, stmts),
@@ -1078,6 +1117,174 @@ impl<'g> Cx<'g> {
                 }
                 Ok(None)
             }
+        }
+    }
+
+    // ------------------------------------------------------------------ ignored fields (manifest `StructIgnore`)
+
+    /// static type of a variable / field path (no statements are emitted)
+    fn static_ty(&self, e: &syn::Expr) -> Option<Ty> {
+        match e {
+            syn::Expr::Paren(p) => self.static_ty(&p.expr),
+            syn::Expr::Reference(r) => self.static_ty(&r.expr),
+            syn::Expr::Unary(u) if matches!(u.op, syn::UnOp::Deref(_)) => self.static_ty(&u.expr),
+            syn::Expr::Path(p) if p.qself.is_none() && p.path.segments.len() == 1 => {
+                let n = p.path.segments[0].ident.to_string();
+                match self.alias_of(&n) {
+                    Some(pl) => Some(pl.ty()),
+                    None => self.lookup(&n),
+                }
+            }
+            syn::Expr::Field(f) => match (self.static_ty(&f.base)?, &f.member) {
+                (Ty::Named(n), syn::Member::Named(id)) => {
+                    self.g.structs.get(&n)?.fields.iter().find(|(fname, _)| id == fname).map(|(_, t)| t.clone())
+                }
+                _ => None,
+            },
+            _ => None,
+        }
+    }
+
+    /// `base.f` where `f` is an ignored field of the struct `base`
+    fn is_ignored_field(&self, e: &syn::Expr) -> bool {
+        if let syn::Expr::Field(f) = e {
+            if let (Some(Ty::Named(n)), syn::Member::Named(id)) = (self.static_ty(&f.base), &f.member) {
+                if let Some(s) = self.g.structs.get(&n) {
+                    return s.ignored.iter().any(|x| id == x);
+                }
+            }
+        }
+        false
+    }
+
+    /// an expression whose value is computed from ignored fields / floating point (it has no translation)
+    pub fn is_ignored_expr(&self, e: &syn::Expr) -> bool {
+        match e {
+            syn::Expr::Paren(p) => self.is_ignored_expr(&p.expr),
+            syn::Expr::Group(p) => self.is_ignored_expr(&p.expr),
+            syn::Expr::Reference(r) => self.is_ignored_expr(&r.expr),
+            syn::Expr::Unary(u) => self.is_ignored_expr(&u.expr),
+            syn::Expr::Lit(l) => matches!(l.lit, syn::Lit::Float(_)),
+            syn::Expr::Path(p) if p.qself.is_none() => {
+                let segs: Vec<String> = p.path.segments.iter().map(|s| s.ident.to_string()).collect();
+                (segs.len() == 1 && self.ignored_locals.contains(&segs[0])) || (segs.len() == 2 && (segs[0] == "f64" || segs[0] == "f32"))
+            }
+            syn::Expr::Field(_) => self.is_ignored_field(e) || matches!(e, syn::Expr::Field(f) if self.is_ignored_expr(&f.base)),
+            syn::Expr::MethodCall(m) => {
+                self.is_ignored_expr(&m.receiver) || m.method == "as_secs_f64" || m.method == "as_secs_f32"
+            }
+            syn::Expr::Binary(b) => self.is_ignored_expr(&b.left) || self.is_ignored_expr(&b.right),
+            syn::Expr::Cast(c) => {
+                matches!(&*c.ty, syn::Type::Path(tp) if tp.path.is_ident("f64") || tp.path.is_ident("f32")) || self.is_ignored_expr(&c.expr)
+            }
+            _ => false,
+        }
+    }
+
+    /// evaluate the translatable parts of an ignored expression for their effects (panics), discard the value
+    pub fn effects_only(&mut self, e: &syn::Expr, stmts: &mut Vec<Stmt>) -> R<()> {
+        match e {
+            syn::Expr::Paren(p) => self.effects_only(&p.expr, stmts),
+            syn::Expr::Group(p) => self.effects_only(&p.expr, stmts),
+            syn::Expr::Reference(r) => self.effects_only(&r.expr, stmts),
+            syn::Expr::Unary(u) if self.is_ignored_expr(e) => self.effects_only(&u.expr, stmts),
+            syn::Expr::Lit(l) if matches!(l.lit, syn::Lit::Float(_)) => Ok(()),
+            syn::Expr::Path(_) | syn::Expr::Field(_) if self.is_ignored_expr(e) => Ok(()),
+            syn::Expr::MethodCall(m) if self.is_ignored_expr(e) => {
+                self.effects_only(&m.receiver, stmts)?;
+                for a in &m.args {
+                    self.effects_only(a, stmts)?;
+                }
+                Ok(())
+            }
+            syn::Expr::Binary(b) if self.is_ignored_expr(e) => {
+                self.effects_only(&b.left, stmts)?;
+                self.effects_only(&b.right, stmts)
+            }
+            syn::Expr::Cast(c) if self.is_ignored_expr(e) => self.effects_only(&c.expr, stmts),
+            // the constructor of the value of an ignored field: only its arguments are evaluated
+            syn::Expr::Call(c) if self.call_is_untranslated(c) => {
+                for a in &c.args {
+                    self.effects_only(a, stmts)?;
+                }
+                Ok(())
+            }
+            other => {
+                let _ = self.expr(other, None, stmts)?;
+                Ok(())
+            }
+        }
+    }
+
+    /// `Type::new(..)` of a type that is not translated (only allowed as the initialiser of an ignored field)
+    fn call_is_untranslated(&self, c: &syn::ExprCall) -> bool {
+        if let syn::Expr::Path(p) = &*c.func {
+            let segs: Vec<String> = p.path.segments.iter().map(|s| s.ident.to_string()).collect();
+            if segs.len() >= 2 {
+                let t = self.g.tkey(&self.file, &segs[segs.len() - 2]);
+                return !self.g.structs.contains_key(&t) && !self.g.enums.contains_key(&t) && self.g.fns.get(&(None, segs[segs.len() - 1].clone())).is_none();
+            }
+        }
+        false
+    }
+
+    fn local_is_ignored(&self, l: &syn::Local) -> bool {
+        match &l.init {
+            Some(i) if i.diverge.is_none() => self.is_ignored_expr(&i.expr),
+            _ => false,
+        }
+    }
+
+    /// a statement that only writes ignored fields / locals
+    fn stmt_is_ignored(&self, e: &syn::Expr) -> bool {
+        match e {
+            syn::Expr::Assign(a) => self.is_ignored_expr(&a.left),
+            syn::Expr::Binary(b) if Self::assign_op(&b.op).is_some() => self.is_ignored_expr(&b.left),
+            syn::Expr::MethodCall(m) => self.is_ignored_expr(&m.receiver),
+            syn::Expr::If(i) => self.is_ignored_expr(&i.cond),
+            _ => false,
+        }
+    }
+
+    fn drop_ignored_stmt(&mut self, e: &syn::Expr, stmts: &mut Vec<Stmt>) -> R<()> {
+        match e {
+            syn::Expr::Assign(a) => self.effects_only(&a.right, stmts),
+            syn::Expr::Binary(b) => self.effects_only(&b.right, stmts),
+            syn::Expr::MethodCall(_) => self.effects_only(e, stmts),
+            syn::Expr::If(i) => {
+                // the condition reads ignored values: both branches may only write ignored values, without any effect
+                self.effects_only(&i.cond, stmts)?;
+                let mut probe: Vec<Stmt> = Vec::new();
+                let mut blocks: Vec<&syn::Block> = vec![&i.then_branch];
+                let mut els = i.else_branch.as_ref().map(|(_, e)| &**e);
+                while let Some(x) = els {
+                    match x {
+                        syn::Expr::Block(b) => {
+                            blocks.push(&b.block);
+                            els = None;
+                        }
+                        syn::Expr::If(n) if self.is_ignored_expr(&n.cond) => {
+                            self.effects_only(&n.cond, &mut probe)?;
+                            blocks.push(&n.then_branch);
+                            els = n.else_branch.as_ref().map(|(_, e)| &**e);
+                        }
+                        o => return self.bail(o.span(), "a condition that reads an ignored field decides about translated state"),
+                    }
+                }
+                for b in blocks {
+                    for st in &b.stmts {
+                        match st {
+                            syn::Stmt::Expr(x, _) if self.stmt_is_ignored(x) => self.drop_ignored_stmt(x, &mut probe)?,
+                            o => return self.bail(o.span(), "a condition that reads an ignored field decides about translated state"),
+                        }
+                    }
+                }
+                if !probe.is_empty() {
+                    return self.bail(i.span(), "statements under a condition that reads an ignored field must be free of effects");
+                }
+                Ok(())
+            }
+            _ => Ok(()),
         }
     }
 
@@ -1185,6 +1392,28 @@ impl<'g> Cx<'g> {
                         let (de, te, _) = else_doc(self, if div_t { None } else { Some(tt.clone()) })?;
                         let ty = if div_t { te } else { tt };
                         return Ok((Doc::If(format!("(!RustSem.Map.contains_key {} {})", cur, k), Box::new(dt), Box::new(de)), ty));
+                    }
+                }
+            }
+            // `if let Some(x) = map.get_mut(&k) { … }`: `x` is an alias of the entry
+            if let (syn::Pat::TupleStruct(ts), syn::Expr::MethodCall(gm)) = (&*l.pat, &*l.expr) {
+                if gm.method == "get_mut" && gm.args.len() == 1 && ts.path.is_ident("Some") && ts.elems.len() == 1 {
+                    if let syn::Pat::Ident(pi) = &ts.elems[0] {
+                        let name = pi.ident.to_string();
+                        self.check_local_name(&name, l.pat.span())?;
+                        let base = self.place(&gm.receiver, stmts)?;
+                        let (kt, vt) = match base.ty() {
+                            Ty::Map(k, v, _) => (*k, *v),
+                            _ => return self.bail(gm.receiver.span(), "`get_mut` on a value that is not a map"),
+                        };
+                        let (k, _) = self.expr(&gm.args[0], Some(&kt), stmts)?;
+                        let cur = self.read(&base, stmts)?;
+                        let site = self.site(&*l.expr);
+                        self.pending_aliases.push((name.clone(), Place::MapEntry(Box::new(base), k.clone(), vt.clone(), site)));
+                        let (dt, tt, div_t) = self.block(&i.then_branch, tail, &[(name, vt)])?;
+                        let (de, te, _) = else_doc(self, if div_t { None } else { Some(tt.clone()) })?;
+                        let ty = if div_t { te } else { tt };
+                        return Ok((Doc::If(format!("RustSem.Map.contains_key {} {}", cur, k), Box::new(dt), Box::new(de)), ty));
                     }
                 }
             }
